@@ -6,11 +6,15 @@ export CARGO_NET_OFFLINE=true
 python3 tools/gen_consts.py || true
 python3 tools/gen_lake.py
 # Lean: the property modules and model drivers of every registered check
-targets=""
-for f in checks/C*.json; do
-  id=$(basename "$f" .json)
-  targets="$targets Libp2pModel.Props.$id drv_$id"
-done
+targets=$(python3 - <<'PY'
+import json, glob, os
+t = []
+for f in sorted(glob.glob("checks/C*.json")):
+    c = json.load(open(f))
+    t += c.get("lean_props", ["Libp2pModel.Props." + c["id"]]) + ["drv_" + c["id"]]
+print(" ".join(dict.fromkeys(t)))
+PY
+)
 (cd lean && lake build $targets)
 [ -f harness/Cargo.lock ] || cp /repo/Cargo.lock harness/Cargo.lock
 (cd harness && cargo build --offline --workspace)
